@@ -318,12 +318,24 @@ def run_impl(rec):
     if changed and leak is None:
         leak = {"constructor_modified_its_arguments": changed, "before": {k: kw_before[k] for k in changed},
                 "after": {k: kw[k] for k in changed}}
+    # directed (aliasing): a SECOND Array built from the very same argument objects (the same caller-owned dim vectors); nobody
+    # touches it afterwards, so its calibrations must still be what it was given after every setter called on the first one
+    twin, twin_before = None, None
+    try:
+        with common.quiet():
+            twin = emdfile.Array(data=data, name="twin", units=rec["units"], **kw)
+        twin_before = array_obs(twin)
+    except Exception:
+        twin = None
     for st in rec["then"]:
         try:
             apply_setter(a, st)
             out["setters"].append(array_obs(a))
         except Exception as e:
             out["setters"].append(alpha.exc_kind(e))
+        if leak is None and twin is not None and array_obs(twin) != twin_before:
+            leak = {"setter_on_one_array_changed_the_calibration_of_another": st, "other_before": twin_before,
+                    "other_after": array_obs(twin)}
         if leak is None and a.is_stack:
             leak = addresses_own_slices(a)
             if leak:
@@ -379,6 +391,9 @@ def run_impl(rec):
             else:
                 rs["back"] = alpha.exc_kind(e)
         out["resave"] = rs
+    if leak is None and twin is not None and array_obs(twin) != twin_before:
+        leak = {"setter_on_one_array_changed_the_calibration_of_another": rec.get("resave"), "other_before": twin_before,
+                "other_after": array_obs(twin)}
     # state must not leak between Arrays: the arrays of this case and those of earlier cases still address their own slices
     for x in (a, b):
         if x is not None and x.is_stack and leak is None:
